@@ -320,26 +320,42 @@ POSTCONDITION Post
 """
 
 
-def validate(ck, pid, traces, label, batch=4000):
-    """code->spec: SandboxTrace.tla accepts or rejects every trace.
+def _validate_batch(args):
+    pid, label, bno, chunk_traces = args
+    d = core.workdir(pid, f"{label}_{bno}")
+    tf = d / "traces.json"
+    tf.write_text(json.dumps(chunk_traces))
+    r = core.run_tlc(pid, "SandboxTrace", CFG_TRACE, workers=1, env={"TRACE_FILE": str(tf)},
+                     name=f"{label}_{bno}_tlc", timeout=3000)
+    rej, stuck = None, {}
+    for line in r.out.splitlines():
+        if line.startswith('"{') and '\\"rejected\\"' in line:
+            rej = json.loads(core._unescape_tla_string(line[1:-1]))["rejected"]
+        elif line.startswith('<<"STUCK"'):
+            t = core.parse_tla(line)
+            stuck[t[1]] = t[2]
+    if rej is None:
+        raise core.MachineryError(f"SandboxTrace {label}: no result line in TLC output")
+    return r, rej, stuck
+
+
+def validate(ck, pid, traces, label, batch=4000, parallel=4):
+    """code->spec: SandboxTrace.tla accepts or rejects every trace (batches are
+    validated by concurrent single-worker TLC processes).
     Returns [(trace index, stuck event index or None)] of the rejected ones."""
+    from concurrent.futures import ThreadPoolExecutor
+
+    n = len(traces)
+    if n == 0:
+        return []
+    size = min(batch, max(400, -(-n // parallel)))
+    chunks = list(core.chunks(list(range(n)), size))
+    jobs = [(pid, label, bno, [traces[i] for i in chunk]) for bno, chunk in enumerate(chunks)]
+    with ThreadPoolExecutor(max_workers=parallel) as ex:
+        results = list(ex.map(_validate_batch, jobs))
     rejected = []
-    for bno, chunk in enumerate(core.chunks(list(range(len(traces))), batch)):
-        d = core.workdir(pid, f"{label}_{bno}")
-        tf = d / "traces.json"
-        tf.write_text(json.dumps([traces[i] for i in chunk]))
-        r = core.run_tlc(pid, "SandboxTrace", CFG_TRACE, workers=1, env={"TRACE_FILE": str(tf)},
-                         name=f"{label}_{bno}_tlc", timeout=3000)
-        ck.add_tlc(r, f"SandboxTrace {label} batch {bno} ({len(chunk)} traces)")
-        rej, stuck = None, {}
-        for line in r.out.splitlines():
-            if line.startswith('"{') and '\\"rejected\\"' in line:
-                rej = json.loads(core._unescape_tla_string(line[1:-1]))["rejected"]
-            elif line.startswith('<<"STUCK"'):
-                t = core.parse_tla(line)
-                stuck[t[1]] = t[2]
-        if rej is None:
-            raise core.MachineryError(f"SandboxTrace {label}: no REJECTED line in TLC output")
+    for (r, rej, stuck), chunk, job in zip(results, chunks, jobs):
+        ck.add_tlc(r, f"SandboxTrace {label} batch {job[2]} ({len(chunk)} traces)")
         for idx in sorted(rej):
             rejected.append((chunk[idx - 1], stuck.get(idx)))
     return rejected
@@ -369,6 +385,61 @@ MCOps == {core.tla_str(set(ops))}
 SPECIFICATION Spec
 """ + "".join(f"INVARIANT {i}\n" for i in invariants)
     return core.run_tlc(pid, "MCSandboxGate", cfg, extra_modules=[mc], name=name, **kw)
+
+
+def require_cov(ck, r, actions):
+    """Vacuity guard: like Check.require_coverage but sums the disjuncts of an action
+    (TLC reports one line per disjunct of a definition)."""
+    import re
+    tot = {}
+    for m in re.finditer(r"<(\w+) line \d+, col \d+ to line \d+, col \d+ of module \w+(?: \([\d ]+\))?>: (\d+):(\d+)",
+                         r.out):
+        tot[m.group(1)] = tot.get(m.group(1), 0) + int(m.group(3))
+    # TLC prints coverage periodically: totals are only compared with zero
+    missing = [a for a in actions if tot.get(a, 0) == 0]
+    ck.extra.setdefault("actions_covered", {}).update({a: tot.get(a, 0) for a in actions})
+    if missing:
+        raise core.MachineryError(f"vacuous model: actions never taken: {missing}")
+
+
+class Background:
+    """Run fn(recorder) in a thread; `join` replays what it recorded on the real Check
+    (Check is not thread-safe) and re-raises its exception."""
+
+    class _Rec:
+        def __init__(self, tier):
+            self.tier = tier
+            self.calls = []
+            self.extra = {}
+
+        def add_tlc(self, r, label, expect_ok=True):
+            self.calls.append((r, label, expect_ok))
+
+    def __init__(self, fn, ck):
+        import threading
+        self.ck = ck
+        self.rec = Background._Rec(ck.tier)
+        self.exc = None
+
+        def body():
+            try:
+                fn(self.rec)
+            except BaseException as e:  # noqa
+                self.exc = e
+        self.t = threading.Thread(target=body)
+        self.t.start()
+
+    def join(self):
+        self.t.join()
+        for r, label, expect_ok in self.rec.calls:
+            self.ck.add_tlc(r, label, expect_ok)
+        for k, v in self.rec.extra.items():
+            if isinstance(v, dict):
+                self.ck.extra.setdefault(k, {}).update(v)
+            else:
+                self.ck.extra[k] = v
+        if self.exc is not None:
+            raise self.exc
 
 
 def load_own_findings(ck, pid):
